@@ -907,6 +907,24 @@ func payloadOf(a hx.Args) ([]byte, bool) {
 		}
 		p = append(p, bytes.Repeat([]byte{byte(v)}, n)...)
 	}
+	if g, ok := a["invgen"]; ok {
+		// invgen=<n>:<base>: an inventory of n transaction items with synthetic ids (too long to spell out in hex)
+		parts := strings.Split(g, ":")
+		if len(parts) != 2 {
+			return nil, false
+		}
+		n, err1 := strconv.Atoi(parts[0])
+		base, err2 := strconv.Atoi(parts[1])
+		if err1 != nil || err2 != nil || n < 0 || n > 200000 {
+			return nil, false
+		}
+		p = append(p, varint(uint64(n))...)
+		for i := 0; i < n; i++ {
+			p = append(p, 1, 0, 0, 0)
+			p = append(p, le64(uint64(base+i))...)
+			p = append(p, make([]byte, 24)...)
+		}
+	}
 	if _, ok := a["tail"]; ok {
 		b, ok := a.Hex("tail")
 		if !ok {
